@@ -54,6 +54,13 @@ def run_one(cond, twin=False):
     return json.loads(m.group(1))
 
 
+def stand_in_class(module, clsname):
+    """True if clsname is a class defined in the contract module (a stand-in), not in tskit."""
+    code = 'import %s as m, inspect; c = getattr(m, %r, None); print("STANDIN", bool(c) and inspect.isclass(c) and c.__module__ == m.__name__)' % (module, clsname)
+    r = subprocess.run(['/venv/bin/python', '-c', code], capture_output=True, text=True, env=pyenv({'VERIF_REPLAY': '1'}), timeout=120)
+    return 'STANDIN True' in r.stdout
+
+
 def replay(cond, call_text):
     """Re-execute the contract function concretely (plain interpreter, real libraries)."""
     code = ('import %s as m\n'
@@ -127,6 +134,12 @@ def run(pid, tier, seed, conds, bounds, outside, assumptions, standins=(), selfc
             desc = dict(job=name, harness=c['module'], kind='contract', msg=v['message'][:500], call=call, replay=rp)
             if 'REPLAY-RESULT True' in rp:
                 errors.append('%s: counterexample %s did not reproduce concretely: %s' % (name, call, rp))
+                continue
+            ms = re.search(r"REPLAY-RAISED AttributeError '(\w+)' object has no attribute", rp)
+            if ms and stand_in_class(c['module'], ms.group(1)):
+                # the code under analysis asked the stand-in for something it does not model: that says nothing about
+                # the property (a correct refactoring could do the same), so it is inconclusive, never a violation
+                errors.append('%s: the stand-in %s lacks an attribute the analysed code now uses (inconclusive): %s' % (name, ms.group(1), rp.strip()[:200]))
                 continue
             k = match_known(kf, desc)
             if k is not None:
